@@ -79,7 +79,7 @@ PATHS_BY_TYPE = {}
 for _e in PATHS:
     PATHS_BY_TYPE.setdefault(_e[0], []).append(_e)
 TYPES = ["a", "a", "a", "b", "ipv4-addr", "ipv6-addr", "windows-registry-key", "windows-registry-key"]
-_OPS = ["=", "=", "=", "!=", "<", "<=", ">", ">=", "IN", "IN", "LIKE", "MATCHES", "ISSUBSET", "ISSUPERSET"]
+_OPS = ["=", "=", "=", "!=", "<", "<=", ">", ">=", "IN", "IN", "IN", "LIKE", "MATCHES", "ISSUBSET", "ISSUPERSET"]
 
 _I2, _I3, _I4, _I6, _I8, _I10, _I16, _I20, _I30, _I64 = (st.integers(0, k - 1) for k in (2, 3, 4, 6, 8, 10, 16, 20, 30, 64))
 _S_TYPE = st.sampled_from(TYPES)
@@ -458,6 +458,20 @@ def mut_constant(ast, pick, fresh):
     return _apply(ast, lambda n: n["k"] == "cmp", fn, pick)
 
 
+def mut_set_item(ast, pick, fresh):
+    """Replace one item of a set literal by a different value (length unchanged)."""
+    def fn(n):
+        entries = [e for e in PATHS if e[0] == n["path"]["t"] and e[1] == n["path"]["steps"]]
+        pool = entries[0][2] if entries else NUMS
+        items = list(n["rhs"]["items"])
+        i = pick(len(items))
+        cand = [c for c in pool if P.canon_const(c) != P.canon_const(items[i])]
+        items[i] = cand[pick(len(cand))]
+        n["rhs"] = {"c": "set", "items": items}
+        return n
+    return _apply(ast, lambda n: n["k"] == "cmp" and n["op"] == "IN" and len(n["rhs"]["items"]) >= 1, fn, pick)
+
+
 def mut_operator(ast, pick, fresh):
     def fn(n):
         if n["op"] in ("=", "!=") + P.ORDER_OPS and n["rhs"]["c"] != "bool":
@@ -478,7 +492,35 @@ def mut_not(ast, pick, fresh):
     def fn(n):
         n["neg"] = not n["neg"]
         return n
+    if pick(2):
+        r = _apply(ast, lambda n: n["k"] == "cmp" and n["op"] in ("IN", "!=") + P.STRING_OPS, fn, pick)
+        if r is not None:
+            return r
     return _apply(ast, lambda n: n["k"] in ("cmp", "exists"), fn, pick)
+
+
+_IP_VARIANTS = [["1.2.3.4", "1.2.3.4/32", "01.02.03.04"], ["1.2.3.0/24", "1.2.3.4/24"], ["10.0.0.0/8", "10.0.0.1/8"],
+                ["1::1", "1:0:0:0:0:0:0:1", "1::1/128", "0001:0000:0000:0000:0000:0000:0000:0001"], ["1:2:3:4:5:6:7:8/112", "1:2:3:4:5:6:7:0/112"]]
+
+
+def mut_special_respell(ast, pick, fresh):
+    """Another spelling of the same special value (letter case of registry keys / value names, CIDR spelling of the
+    same network).  The library documents these as equal for comparisons; nothing is promised for other operators."""
+    def pred(n):
+        return n["k"] == "cmp" and patsem.special_of(n["path"]) is not None and n["rhs"]["c"] == "str"
+
+    def fn(n):
+        v = n["rhs"]["v"]
+        if patsem.special_of(n["path"]) == "regkey":
+            alts = [x for x in (v.lower(), v.upper(), v.swapcase()) if x != v]
+            if n["op"] == "MATCHES" and "\\" not in v:
+                alts = alts or [v]
+        else:
+            alts = [x for grp in _IP_VARIANTS if v in grp for x in grp if x != v]
+        if alts:
+            n["rhs"] = {"c": "str", "v": alts[pick(len(alts))]}
+        return n
+    return _apply(ast, pred, fn, pick)
 
 
 def mut_path(ast, pick, fresh):
@@ -551,10 +593,10 @@ def mut_qualify(ast, pick, fresh):
 MUTATIONS = {
     "constant": mut_constant, "operator": mut_operator, "not": mut_not, "path": mut_path, "qualifier": mut_qualifier,
     "swap-followedby": mut_swap_followedby, "duplicate-and-operand": mut_duplicate_and_operand, "and-or": mut_and_or,
-    "absorb-wrong": mut_absorb_wrong, "qualify": mut_qualify,
+    "absorb-wrong": mut_absorb_wrong, "qualify": mut_qualify, "special-respell": mut_special_respell, "set-item": mut_set_item,
 }
-MUTATION_NAMES = ["constant", "constant", "operator", "not", "not", "path", "qualifier", "qualifier", "swap-followedby", "duplicate-and-operand",
-                  "and-or", "absorb-wrong", "qualify"]
+MUTATION_NAMES = ["constant", "constant", "operator", "not", "not", "not", "path", "qualifier", "qualifier", "swap-followedby", "swap-followedby",
+                  "duplicate-and-operand", "and-or", "absorb-wrong", "qualify", "special-respell", "special-respell", "special-respell", "set-item", "set-item", "set-item", "set-item"]
 
 
 # ---------------------------------------------------------------------------
@@ -583,6 +625,15 @@ def _derive(draw, ast, clean):
         cur = ast
         for name in names:
             nxt = LAWS[name](cur, pick, fresh)
+            if nxt is None and name == "distribute":       # plant an OR operand first (idempotence), then distribute over it
+                pre = rw_introduce_or(cur, pick, fresh)
+                if pre is not None:
+                    nxt = rw_distribute(pre, pick, fresh)
+                    if nxt is not None:
+                        done.append("introduce-or")
+            if nxt is None:
+                name = "idempotent" if name != "absorb" else name
+                nxt = LAWS[name](cur, pick, fresh)
             tag = ""
             if isinstance(nxt, tuple):
                 nxt, tag = nxt
@@ -595,6 +646,9 @@ def _derive(draw, ast, clean):
     if r < 8:
         name = draw(_S_MUT)
         nxt = MUTATIONS[name](ast, pick, fresh)
+        if nxt is None:
+            name = "constant"
+            nxt = mut_constant(ast, pick, fresh)
         if nxt is None:
             return ast, "rewrite:none"
         if draw(_I4) == 0:      # mutation followed by a law, so that the normaliser has work to do
